@@ -38,8 +38,22 @@ def digest(tree) -> str:
     return h.hexdigest()
 
 
+_GYM_ENVS: dict = {}
+
+
 def build(c):
     name = c["algo"]
+    if c["env"] == "gymtwin":
+        # a Gymnasium environment (twin of a 3-state ring MDP, initial state drawn from the gym env's own np_random)
+        # behind GymToLeraxEnv; the SAME adapter object is reused by every run of a case, as a user would
+        from lerax.compatibility.gym import GymToLeraxEnv
+        from mc.twins import TabGymEnv
+
+        if "env" not in _GYM_ENVS:
+            _GYM_ENVS["env"] = GymToLeraxEnv(TabGymEnv(dict(T=learnx.CHAIN_T, term=[False, False, False], init=[True, True, True], limit=3, obs_kind="onehot"), rng_init=True))
+        env = _GYM_ENVS["env"]
+        pol = learnx.make_policy(learnx.ALGO_POLICY[name], env, 7 + c["hp"])
+        return env, pol, learnx.make_algo(name, 1, c["num_steps"])
     if c["env"] == "tab":
         env = learnx.tiny_env(learnx.ALGO_ACT[name], tl=3)
     elif c["env"] == "tab-noterm":
@@ -205,6 +219,9 @@ def explore(ctx: Ctx):
                             if sub:
                                 ctx.nontriv((a, env, hp, k, tuple(sub), as_list))
                 kcases.append(dict(base, keys=keys, observers=[]))
+        if a in ("PPO", "DQN"):  # side-effecting environment: Gymnasium env behind GymToLeraxEnv (single environment only)
+            for sub in ([], ["log-rec"]):
+                cases.append(dict(algo=a, env="gymtwin", hp=0, num_envs=1, num_steps=4, total=13, key=keys[0], observers=sub, as_list=True))
         cross.append(dict(algo=a, env="tab", hp=0, num_envs=E, num_steps=T, total=total, key=keys[0], observers=["log-rec"] if a != "PPO" else OBSERVERS))
     ctx.run_parallel("observers", cases, workers=8, group_key=lambda c: (c["algo"], c["env"], c["hp"]), threads=2)
     ctx.run_parallel("keys", kcases, workers=5, group_key=lambda c: c["algo"], threads=2)
